@@ -202,7 +202,8 @@ def body_sentences(w, n):
                   'preference-clause', False)
         elif t < 0.95 and len(cs) >= 1:
             c = rnd.choice(cs)
-            w.add('It is %s that there is %s%s.' % (rnd.choice(['prohibited', 'required']), rnd.choice(['', 'not ']), ent(w, c, labs[0])), 'constraint-there-is', False)
+            # no label: a variable here would occur only in the (possibly negated) main literal of the constraint
+            w.add('It is %s that there is %s%s.' % (rnd.choice(['prohibited', 'required']), rnd.choice(['', 'not ']), ent(w, c)), 'constraint-there-is', False)
         else:
             w.add('// a comment between sentences', 'comment', False)
 
